@@ -27,20 +27,36 @@ struct ShapeResult {
     std::string dump;
     size_t nchars_used = 0;
     std::vector<PassRec> passes;
-    unsigned long fired = 0;
+    unsigned long fired = 0, late_assoc = 0;
     int feat_set_fail = 0;
 };
 
-inline void run_shape(const gr_face *face, const ShapeParams &sp, ShapeResult &r) {
+// ext_font / ext_fv: objects owned by the caller (history scenarios); keep: hand the segment to the caller instead of destroying it
+inline void run_shape(const gr_face *face, const ShapeParams &sp, ShapeResult &r, const gr_font *ext_font = nullptr, bool use_ext_font = false,
+                      const gr_feature_val *ext_fv = nullptr, gr_segment **keep = nullptr) {
     size_t usz = size_t(sp.enc);
     size_t units = sp.text.size() / usz;
     std::vector<uint8_t> tb(sp.text.begin(), sp.text.begin() + units * usz);
     size_t nchars = sp.nchars >= 0 ? size_t(sp.nchars) : utfref::decode(sp.enc, tb.data(), tb.size()).size();
-    if (sp.nul_terminate) tb.insert(tb.end(), usz, 0);
+    // Precondition of gr_make_seg (it has no end pointer): the text is either well delimited or NUL terminated.
+    // A buffer that ends in a truncated multi-unit sequence is therefore always given its terminator.
+    bool truncated_tail = false;
+    if (sp.enc == 1 && units) {
+        for (size_t k = 1; k <= 3 && k <= units; ++k) {
+            uint8_t b = tb[units - k];
+            if (b >= 0xC0) { int want = b >= 0xF0 ? 4 : b >= 0xE0 ? 3 : 2; if (int(k) < want) truncated_tail = true; break; }
+            if (b < 0x80) break;
+        }
+    } else if (sp.enc == 2 && units) {
+        uint16_t u; memcpy(&u, &tb[(units - 1) * 2], 2);
+        if (u >= 0xD800 && u <= 0xDBFF) truncated_tail = true;
+    }
+    if (sp.nul_terminate || truncated_tail) tb.insert(tb.end(), usz, 0);
     Exact buf(tb);
-    gr_font *font = sp.ppm > 0 ? gr_make_font(sp.ppm, face) : nullptr;
+    gr_font *own_font = (!use_ext_font && sp.ppm > 0) ? gr_make_font(sp.ppm, face) : nullptr;
+    const gr_font *font = use_ext_font ? ext_font : own_font;
     gr_feature_val *fv = nullptr;
-    if (sp.use_lang || !sp.feats.empty()) {
+    if (!ext_fv && (sp.use_lang || !sp.feats.empty())) {
         fv = gr_face_featureval_for_lang(face, sp.use_lang ? sp.lang : 0);
         for (auto &kv : sp.feats) {
             const gr_feature_ref *fr = gr_face_find_fref(face, kv.first);
@@ -48,9 +64,10 @@ inline void run_shape(const gr_face *face, const ShapeParams &sp, ShapeResult &r
         }
     }
     hooks().reset();
-    gr_segment *seg = gr_make_seg(font, face, sp.script, fv, gr_encform(sp.enc), buf.p, nchars, sp.dir);
+    gr_segment *seg = gr_make_seg(font, face, sp.script, ext_fv ? ext_fv : fv, gr_encform(sp.enc), buf.p, nchars, sp.dir);
     r.passes = hooks().passes;
     r.fired = hooks().fired;
+    r.late_assoc = hooks().late_assoc;
     r.nchars_used = nchars;
     for (auto &pr : r.passes) if (pr.iters > pass_bound(pr)) seginv::add(r.findings, "C02", "rule-loop-iterations-exceed-bound");
     if (seg) {
@@ -59,10 +76,10 @@ inline void run_shape(const gr_face *face, const ShapeParams &sp, ShapeResult &r
         std::vector<const gr_slot *> sl = seginv::check_segment(face, seg, ex, r.findings, &r.st);
         if (sp.query_all) seginv::query_all(face, font, seg, sl, sp.all_sub);
         if (sp.want_dump) r.dump = seginv::dump(face, font, seg, sl);
-        gr_seg_destroy(seg);
+        if (keep) *keep = seg; else gr_seg_destroy(seg);
     }
     if (fv) gr_featureval_destroy(fv);
-    if (font) gr_font_destroy(font);
+    if (own_font) gr_font_destroy(own_font);
 }
 
 inline ShapeParams read_shape_params(Reader &rd) {
@@ -83,7 +100,7 @@ inline ShapeParams read_shape_params(Reader &rd) {
 }
 
 inline std::string shape_json(const ShapeResult &r) {
-    std::string s = "\"seg\":" + std::to_string(int(r.seg)) + ",\"nchars\":" + std::to_string(r.nchars_used) + ",\"fired\":" + std::to_string(r.fired) +
+    std::string s = "\"seg\":" + std::to_string(int(r.seg)) + ",\"nchars\":" + std::to_string(r.nchars_used) + ",\"fired\":" + std::to_string(r.fired) + ",\"late\":" + std::to_string(r.late_assoc) +
                     ",\"featfail\":" + std::to_string(r.feat_set_fail) + ",\"labels\":[";
     for (size_t i = 0; i < r.findings.size(); ++i) { if (i) s += ","; s += "[\"" + std::string(r.findings[i].prop) + "\"," + jstr(r.findings[i].label) + "]"; }
     s += "],\"passes\":[";
